@@ -91,6 +91,11 @@ CHECKS = {
         text="Each observed introspection answer is decided against the generating IR: kinds, members in order, interfaces / possible types as sets, directives, roots, deprecation visibility and default values as GraphQL syntax.",
         note="String defaults with special characters are a listed known finding (format pinned by the repository's test).",
         design="4/C15"),
+    "C13": dict(
+        technique="runtime monitor on validate_schema / Schema.validate: generated valid schemas (several type orderings, benign covariant implementations and permissive resolvers) must pass; 36 labelled violation operators on fresh uniquely named elements, singly and combined, must all be named in the raised SchemaValidationError; resolver registration histories compare the cached verdict with a fresh validation at every step",
+        text="Each observed validation is decided by construction labels: no false rejection, every injected violation reported (needle = unique element name), same verdict for every ordering, cache invalidated after resolver changes.",
+        note="A violation counts as reported when a message contains the unique name of the injected element.",
+        design="4/C13"),
 }
 
 PENDING_REASON = "check not built yet in this session (planned: see DESIGN.md section 4); no claim is made"
